@@ -1658,13 +1658,15 @@ bool SimpleCondition::isTrue() {
   if (!m_message) {
     return false;
   }
-  if (m_message->getLastChangeTime() > m_lastCheckTime) {
+  time_t lastChangeTime = m_message->getLastChangeTime();
+  if (lastChangeTime > m_lastCheckTime) {
     bool isTrue = !m_hasValues;  // for message seen check
     if (!isTrue) {
       isTrue = checkValue(m_message, m_field);
     }
     m_isTrue = isTrue;
-    m_lastCheckTime = m_message->getLastChangeTime();
+    // another change may still happen within the second of the last change, so check again in that case
+    m_lastCheckTime = time(nullptr) > lastChangeTime ? lastChangeTime : lastChangeTime - 1;
   }
   return m_isTrue;
 }
